@@ -553,7 +553,7 @@ class _Instr(ast.NodeTransformer):
         return ast.BinOp(l, op, r)
 
 
-DROP_IMPORTS = ('scipy', 'compmech.integrate', 'libc', 'cython')
+DROP_IMPORTS = ('scipy', 'compmech.integrate', 'libc', 'cython', 'numpy')
 
 
 class Module:
